@@ -1,77 +1,115 @@
 import CalicoVerif.Model.C27
-/-! C27 — helper lemmas about `step`, `resolve`. -/
+/-! C27 — specification vocabulary and helper lemmas about `step`, `resolve`
+(model of the repaired code: shadowed keys are skipped before parsing; keys are visited sorted). -/
 namespace CalicoVerif.C27
 
 /-- A key is *admissible* for a known parameter in a source unless it is a datastore value of a
 local-only parameter (`metadata.Local && !source.Local()`). -/
 def admissible (m : Meta) (s : Src) : Bool := !(m.local_ && !s.isLocal)
 
-/-- The key `(s, k, v)` makes `resolve` return early with `Err` set. -/
-def fatalKey (c : Ctx) (t : Src × KV) : Prop :=
-  ∃ m, c.known (c.lower t.2.1) = some m ∧ admissible m t.1 = true ∧ valOf c m t.2.2 = none
+/-- `kv` is a key for the parameter with lower-case name `l`. -/
+def keyFor (c : Ctx) (l : String) (kv : KV) : Bool := c.lower kv.1 == l
 
-theorem step_none_iff (c : Ctx) (s : St) (t : Src × KV) :
-    step c s t = none ↔ fatalKey c t := by
-  simp only [step, fatalKey, admissible]
-  cases hk : c.known (c.lower t.2.1) with
-  | none => simp only []; split <;> simp
-  | some m =>
-    simp only [Option.some.injEq, exists_eq_left']
-    by_cases hl : (m.local_ && !t.1.isLocal) = true
-    · simp [hl]
-    · simp only [hl, Bool.false_eq_true, if_false]
-      cases hv : valOf c m t.2.2 with
-      | none => simp
-      | some v => simp only []; split <;> simp
+/-- The order used to sort raw key names is a total order (Go's string `<=` is). -/
+structure OrderOK (c : Ctx) : Prop where
+  total : ∀ a b, (c.keyLe a b || c.keyLe b a) = true
+  trans : ∀ a b d, c.keyLe a b = true → c.keyLe b d = true → c.keyLe a d = true
+  antisymm : ∀ a b, c.keyLe a b = true → c.keyLe b a = true → a = b
 
-theorem foldlM_step_none_iff (c : Ctx) (ts : List (Src × KV)) (s : St) :
-    ts.foldlM (step c) s = none ↔ ∃ t ∈ ts, fatalKey c t := by
-  induction ts generalizing s with
-  | nil => simp
-  | cons t ts ih =>
-    simp only [List.foldlM_cons, List.mem_cons, exists_eq_or_imp]
-    cases h : step c s t with
-    | none =>
-      have := (step_none_iff c s t).1 h
-      simp [this]
-    | some s' =>
-      have hnf : ¬ fatalKey c t := fun hf => by
-        have := (step_none_iff c s t).2 hf; rw [h] at this; cases this
-      simp only [hnf, false_or]
-      exact ih s'
+/-- Each source is a Go map: every exact key occurs once. -/
+def KeysNodup (srcs : Sources) : Prop := ∀ s, (srcs s).Pairwise (fun a b => a.1 ≠ b.1)
 
-theorem mem_flat {srcs : Sources} {t : Src × KV} : t ∈ flat srcs ↔ t.2 ∈ srcs t.1 := by
+/-! ### sorting -/
+
+theorem sortKeys_perm (c : Ctx) (xs : List KV) : (sortKeys c xs).Perm xs := List.mergeSort_perm _ _
+
+theorem mem_sortKeys {c : Ctx} {xs : List KV} {a : KV} : a ∈ sortKeys c xs ↔ a ∈ xs :=
+  (sortKeys_perm c xs).mem_iff
+
+theorem sortKeys_sorted (c : Ctx) (h : OrderOK c) (xs : List KV) :
+    (sortKeys c xs).Pairwise (fun a b => c.keyLe a.1 b.1 = true) := by
+  unfold sortKeys
+  apply List.pairwise_mergeSort
+  · intro a b d hab hbd; exact h.trans _ _ _ hab hbd
+  · intro a b; exact h.total a.1 b.1
+
+theorem eq_of_key_eq {xs : List KV} (hn : xs.Pairwise (fun a b => a.1 ≠ b.1)) {a b : KV}
+    (ha : a ∈ xs) (hb : b ∈ xs) (h : a.1 = b.1) : a = b := by
+  induction xs with
+  | nil => cases ha
+  | cons x xs ih =>
+    rw [List.pairwise_cons] at hn
+    rcases List.mem_cons.1 ha with rfl | ha' <;> rcases List.mem_cons.1 hb with rfl | hb'
+    · rfl
+    · exact absurd h (hn.1 b hb')
+    · exact absurd h.symm (hn.1 a ha')
+    · exact ih hn.2 ha' hb'
+
+/-- Sorting forgets the order the keys were listed in. -/
+theorem sortKeys_eq_of_perm (c : Ctx) (h : OrderOK c) {xs ys : List KV} (hp : xs.Perm ys)
+    (hn : xs.Pairwise (fun a b => a.1 ≠ b.1)) : sortKeys c xs = sortKeys c ys := by
+  apply List.Perm.eq_of_pairwise (le := fun a b => c.keyLe a.1 b.1 = true)
+  · intro a b ha hb hab hba
+    have h1 := h.antisymm _ _ hab hba
+    exact eq_of_key_eq hn (mem_sortKeys.1 ha) (hp.mem_iff.2 (mem_sortKeys.1 hb)) h1
+  · exact sortKeys_sorted c h xs
+  · exact sortKeys_sorted c h ys
+  · exact ((sortKeys_perm c xs).trans hp).trans (sortKeys_perm c ys).symm
+
+theorem sortKeys_filter (c : Ctx) (h : OrderOK c) (xs : List KV) (q : KV → Bool)
+    (hn : xs.Pairwise (fun a b => a.1 ≠ b.1)) :
+    sortKeys c (xs.filter q) = (sortKeys c xs).filter q := by
+  apply List.Perm.eq_of_pairwise (le := fun a b => c.keyLe a.1 b.1 = true)
+  · intro a b ha hb hab hba
+    have h1 := h.antisymm _ _ hab hba
+    have ha' : a ∈ xs := (List.mem_filter.1 (mem_sortKeys.1 ha)).1
+    have hb' : b ∈ xs := mem_sortKeys.1 (List.mem_filter.1 hb).1
+    exact eq_of_key_eq hn ha' hb' h1
+  · exact sortKeys_sorted c h _
+  · exact (sortKeys_sorted c h xs).filter _
+  · exact (sortKeys_perm c _).trans ((sortKeys_perm c xs).symm.filter q)
+
+theorem mem_flat {c : Ctx} {srcs : Sources} {t : Src × KV} : t ∈ flat c srcs ↔ t.2 ∈ srcs t.1 := by
   unfold flat descending
   obtain ⟨s, kv⟩ := t
-  cases s <;> simp
+  cases s <;> simp [mem_sortKeys]
+
+theorem descending_sorted : descending.Pairwise (fun a b => b.prio < a.prio) := by decide
+
+theorem mem_descending (s : Src) : s ∈ descending := by cases s <;> simp [descending]
+
+theorem flatMap_sorted (f : Src → List KV) (ss : List Src)
+    (hs : ss.Pairwise (fun a b => b.prio < a.prio)) :
+    (ss.flatMap (fun s => (f s).map (fun kv => (s, kv)))).Pairwise
+      (fun a b => b.1.prio ≤ a.1.prio) := by
+  induction ss with
+  | nil => simp
+  | cons s ss ih =>
+    rw [List.pairwise_cons] at hs
+    simp only [List.flatMap_cons, List.pairwise_append]
+    refine ⟨?_, ih hs.2, ?_⟩
+    · rw [List.pairwise_map]
+      exact List.pairwise_of_forall (fun _ _ => Nat.le_refl _)
+    · intro a ha b hb
+      obtain ⟨kv, _, rfl⟩ := List.mem_map.1 ha
+      obtain ⟨s', hs', hb'⟩ := List.mem_flatMap.1 hb
+      obtain ⟨kv', _, rfl⟩ := List.mem_map.1 hb'
+      exact Nat.le_of_lt (hs.1 s' hs')
+
+/-- `resolve` walks the keys source by source, highest priority first. -/
+theorem flat_sorted (c : Ctx) (srcs : Sources) :
+    (flat c srcs).Pairwise (fun a b => b.1.prio ≤ a.1.prio) :=
+  flatMap_sorted _ _ descending_sorted
 
 end CalicoVerif.C27
 
 namespace CalicoVerif.C27
 
-/-! ### Specification vocabulary -/
-
-/-- `kv` is a key for the parameter with lower-case name `l`. -/
-def keyFor (c : Ctx) (l : String) (kv : KV) : Bool := c.lower kv.1 == l
-
-/-- No two keys of one source have the same lower-case name. -/
-def DistinctLower (c : Ctx) (srcs : Sources) : Prop :=
-  ∀ s, (srcs s).Pairwise (fun a b => c.lower a.1 ≠ c.lower b.1)
-
-/-- The key of source `s` that can decide parameter `l` (none if the source has no key for it, or
-the parameter is local-only and the source is a datastore source). -/
-def decidingIn (c : Ctx) (srcs : Sources) (l : String) (m : Meta) (s : Src) : Option (Src × KV) :=
-  if admissible m s then ((srcs s).find? (keyFor c l)).map (fun kv => (s, kv)) else none
-
-/-- The deciding key of parameter `l`: the one in the highest-priority source that sets it. -/
-def deciding (c : Ctx) (srcs : Sources) (l : String) (m : Meta) : Option (Src × KV) :=
-  descending.findSome? (decidingIn c srcs l m)
-
-/-! ### Projection of the loop state on one parameter -/
+/-! ### one step, seen by one parameter -/
 
 def proj (l : String) (st : St) : Option Val × Nat := (st.fields.lookup l, st.cur l)
 
-/-- `step` as seen by parameter `l` (a fatal value is never seen: `step` fails first). -/
+/-- `step` as seen by parameter `l` when it succeeds. -/
 def pstep (c : Ctx) (l : String) (m : Meta) (p : Option Val × Nat) (t : Src × KV) : Option Val × Nat :=
   if keyFor c l t.2 && admissible m t.1 then
     if t.1.prio < p.2 then p else (some ((valOf c m t.2.2).getD .dflt), t.1.prio)
@@ -86,13 +124,33 @@ theorem lookup_cons_self {β : Type} (l : String) (x : β) (xs : List (String ×
     List.lookup l ((l, x) :: xs) = some x := by
   simp [List.lookup]
 
+/-- The key is parsed (not skipped) and its value is fatal. -/
+def fatalAt (c : Ctx) (st : St) (t : Src × KV) : Prop :=
+  ∃ m, c.known (c.lower t.2.1) = some m ∧ admissible m t.1 = true ∧
+    ¬ t.1.prio < st.cur (c.lower t.2.1) ∧ valOf c m t.2.2 = none
+
+theorem step_none_iff (c : Ctx) (st : St) (t : Src × KV) : step c st t = none ↔ fatalAt c st t := by
+  simp only [step, fatalAt, admissible]
+  cases hk : c.known (c.lower t.2.1) with
+  | none => simp only []; split <;> simp
+  | some m =>
+    simp only [Option.some.injEq, exists_eq_left']
+    by_cases hl : (m.local_ && !t.1.isLocal) = true
+    · simp [hl]
+    · simp only [hl, Bool.false_eq_true, if_false]
+      by_cases hp : t.1.prio < st.cur (c.lower t.2.1)
+      · simp [hp]
+      · simp only [hp, if_false]
+        cases hv : valOf c m t.2.2 with
+        | none => simp
+        | some v => simp
+
 theorem step_proj (c : Ctx) (l : String) (m : Meta) (hk : c.known l = some m)
     (st st' : St) (t : Src × KV) (h : step c st t = some st') :
     proj l st' = pstep c l m (proj l st) t := by
   simp only [step] at h
   by_cases hl : c.lower t.2.1 = l
-  · -- a key for `l`
-    subst hl
+  · subst hl
     simp only [hk] at h
     simp only [pstep, keyFor, beq_self_eq_true, Bool.true_and, admissible]
     by_cases ha : (m.local_ && !t.1.isLocal) = true
@@ -103,20 +161,19 @@ theorem step_proj (c : Ctx) (l : String) (m : Meta) (hk : c.known l = some m)
       have ha' : (!(m.local_ && !t.1.isLocal)) = true := by
         cases hb : (m.local_ && !t.1.isLocal) <;> simp_all
       simp only [ha', if_true]
-      cases hv : valOf c m t.2.2 with
-      | none => simp [hv] at h
-      | some v =>
-        simp only [hv] at h
-        by_cases hp : t.1.prio < st.cur (c.lower t.2.1)
-        · simp only [hp, if_true, Option.some.injEq] at h
-          subst h
-          simp [proj, hp]
-        · simp only [hp, if_false, Option.some.injEq] at h
+      by_cases hp : t.1.prio < st.cur (c.lower t.2.1)
+      · simp only [hp, if_true, Option.some.injEq] at h
+        subst h
+        simp [proj, hp]
+      · simp only [hp, if_false] at h
+        cases hv : valOf c m t.2.2 with
+        | none => simp [hv] at h
+        | some v =>
+          simp only [hv, Option.some.injEq] at h
           subst h
           simp only [St.cur] at hp
           simp [proj, St.cur, hp]
-  · -- a key for another name: neither `fields[l]` nor `nameToSource[l]` is touched
-    have hk' : keyFor c l t.2 = false := by simpa [keyFor] using hl
+  · have hk' : keyFor c l t.2 = false := by simpa [keyFor] using hl
     simp only [pstep, hk', Bool.false_and, Bool.false_eq_true, if_false]
     cases hkn : c.known (c.lower t.2.1) with
     | none =>
@@ -129,13 +186,12 @@ theorem step_proj (c : Ctx) (l : String) (m : Meta) (hk : c.known l = some m)
       simp only [hkn] at h
       split at h
       · simp only [Option.some.injEq] at h; subst h; rfl
-      · cases hv : valOf c m' t.2.2 with
-        | none => simp [hv] at h
-        | some v =>
-          simp only [hv] at h
-          split at h
-          · simp only [Option.some.injEq] at h; subst h; rfl
-          · simp only [Option.some.injEq] at h; subst h
+      · split at h
+        · simp only [Option.some.injEq] at h; subst h; rfl
+        · cases hv : valOf c m' t.2.2 with
+          | none => simp [hv] at h
+          | some v =>
+            simp only [hv, Option.some.injEq] at h; subst h
             simp [proj, St.cur, lookup_cons_ne hl]
 
 theorem foldlM_step_proj (c : Ctx) (l : String) (m : Meta) (hk : c.known l = some m)
@@ -153,15 +209,121 @@ theorem foldlM_step_proj (c : Ctx) (l : String) (m : Meta) (hk : c.known l = som
       simp only [List.foldl_cons]
       rw [ih st1 h', step_proj c l m hk st st1 t h1]
 
-/-! ### Folding `pstep` over one source, then over the sources in descending order -/
+/-! ### the last key for `l` of a (sorted) key list wins -/
+
+/-- The last key for `l` in list order. -/
+def lastMatch (c : Ctx) (l : String) : List KV → Option KV
+  | [] => none
+  | x :: xs =>
+    match lastMatch c l xs with
+    | some y => some y
+    | none => if keyFor c l x then some x else none
+
+theorem lastMatch_some {c : Ctx} {l : String} {xs : List KV} {kv : KV}
+    (h : lastMatch c l xs = some kv) : kv ∈ xs ∧ keyFor c l kv = true := by
+  induction xs with
+  | nil => simp [lastMatch] at h
+  | cons x xs ih =>
+    simp only [lastMatch] at h
+    cases hl : lastMatch c l xs with
+    | some y =>
+      simp only [hl, Option.some.injEq] at h; subst h
+      exact ⟨List.mem_cons_of_mem _ (ih hl).1, (ih hl).2⟩
+    | none =>
+      simp only [hl] at h
+      by_cases hx : keyFor c l x = true
+      · simp only [hx, if_true, Option.some.injEq] at h; subst h; exact ⟨by simp, hx⟩
+      · simp [hx] at h
+
+theorem lastMatch_none {c : Ctx} {l : String} {xs : List KV} :
+    lastMatch c l xs = none ↔ ∀ x ∈ xs, keyFor c l x = false := by
+  induction xs with
+  | nil => simp [lastMatch]
+  | cons x xs ih =>
+    simp only [lastMatch, List.mem_cons, forall_eq_or_imp]
+    cases hl : lastMatch c l xs with
+    | some y =>
+      simp only [reduceCtorEq, false_iff, not_and]
+      intro _ hall
+      have := (lastMatch_some hl)
+      rw [hall y this.1] at this; exact absurd this.2 (by simp)
+    | none =>
+      have := ih.1 hl
+      by_cases hx : keyFor c l x = true
+      · simp [hx]
+      · have hx' : keyFor c l x = false := by simpa using hx
+        simp only [hx', Bool.false_eq_true, if_false, true_and, true_iff]
+        exact this
+
+/-- In a sorted list the last key for `l` is the greatest one. -/
+theorem lastMatch_max {c : Ctx} (ho : OrderOK c) {l : String} {xs : List KV} {kv : KV}
+    (hs : xs.Pairwise (fun a b => c.keyLe a.1 b.1 = true)) (h : lastMatch c l xs = some kv) :
+    ∀ x ∈ xs, keyFor c l x = true → c.keyLe x.1 kv.1 = true := by
+  induction xs with
+  | nil => simp [lastMatch] at h
+  | cons x xs ih =>
+    rw [List.pairwise_cons] at hs
+    simp only [lastMatch] at h
+    intro y hy hky
+    cases hl : lastMatch c l xs with
+    | some z =>
+      simp only [hl, Option.some.injEq] at h; subst h
+      rcases List.mem_cons.1 hy with rfl | hy'
+      · exact hs.1 z (lastMatch_some hl).1
+      · exact ih hs.2 hl y hy' hky
+    | none =>
+      simp only [hl] at h
+      by_cases hx : keyFor c l x = true
+      · simp only [hx, if_true, Option.some.injEq] at h; subst h
+        rcases List.mem_cons.1 hy with rfl | hy'
+        · have := ho.total y.1 y.1; simpa using this
+        · have := lastMatch_none.1 hl y hy'; rw [this] at hky; cases hky
+      · simp [hx] at h
+
+/-- Folding one source's keys. -/
+theorem keysFold_eq (c : Ctx) (l : String) (m : Meta) (s : Src) (xs : List KV) (p : Option Val × Nat) :
+    xs.foldl (fun p kv => pstep c l m p (s, kv)) p =
+      if admissible m s = true ∧ ¬ s.prio < p.2 then
+        match lastMatch c l xs with
+        | none => p
+        | some kv => (some ((valOf c m kv.2).getD .dflt), s.prio)
+      else p := by
+  induction xs generalizing p with
+  | nil => simp [lastMatch]
+  | cons x xs ih =>
+    simp only [List.foldl_cons]
+    rw [ih]
+    by_cases hc : admissible m s = true ∧ ¬ s.prio < p.2
+    · obtain ⟨ha, hp⟩ := hc
+      by_cases hx : keyFor c l x = true
+      · have h1 : pstep c l m p (s, x) = (some ((valOf c m x.2).getD .dflt), s.prio) := by
+          simp [pstep, hx, ha, hp]
+        simp only [h1, ha, true_and, Nat.lt_irrefl, not_false_eq_true, if_true, hp, lastMatch]
+        cases lastMatch c l xs <;> simp [hx]
+      · have hx' : keyFor c l x = false := by simpa using hx
+        have h1 : pstep c l m p (s, x) = p := by simp [pstep, hx']
+        simp only [h1, ha, hp, true_and, not_false_eq_true, if_true, lastMatch]
+        cases lastMatch c l xs <;> simp [hx']
+    · have h1 : pstep c l m p (s, x) = p := by
+        simp only [pstep]
+        split
+        · rename_i hk
+          simp only [Bool.and_eq_true] at hk
+          have : s.prio < p.2 := by
+            by_cases hp : s.prio < p.2
+            · exact hp
+            · exact absurd ⟨hk.2, hp⟩ hc
+          simp [this]
+        · rfl
+      simp only [h1, hc, if_false]
 
 def srcFold (c : Ctx) (l : String) (m : Meta) (srcs : Sources) (p : Option Val × Nat) (s : Src) :
     Option Val × Nat :=
-  (srcs s).foldl (fun p kv => pstep c l m p (s, kv)) p
+  (sortKeys c (srcs s)).foldl (fun p kv => pstep c l m p (s, kv)) p
 
 theorem foldl_flat (c : Ctx) (l : String) (m : Meta) (srcs : Sources) (ss : List Src)
     (p : Option Val × Nat) :
-    (ss.flatMap (fun s => (srcs s).map (fun kv => (s, kv)))).foldl (pstep c l m) p
+    (ss.flatMap (fun s => (sortKeys c (srcs s)).map (fun kv => (s, kv)))).foldl (pstep c l m) p
       = ss.foldl (srcFold c l m srcs) p := by
   induction ss generalizing p with
   | nil => rfl
@@ -169,80 +331,39 @@ theorem foldl_flat (c : Ctx) (l : String) (m : Meta) (srcs : Sources) (ss : List
     simp only [List.flatMap_cons, List.foldl_append, List.foldl_cons, List.foldl_map]
     exact ih _
 
-theorem keysFold_no_match (c : Ctx) (l : String) (m : Meta) (s : Src) (xs : List KV)
-    (h : ∀ kv ∈ xs, keyFor c l kv = false) (p : Option Val × Nat) :
-    xs.foldl (fun p kv => pstep c l m p (s, kv)) p = p := by
-  induction xs generalizing p with
-  | nil => rfl
-  | cons x xs ih =>
-    simp only [List.foldl_cons]
-    have hx : keyFor c l x = false := h x (by simp)
-    have : pstep c l m p (s, x) = p := by simp [pstep, hx]
-    rw [this]
-    exact ih (fun kv hkv => h kv (by simp [hkv])) p
+/-- The key of source `s` that decides parameter `l` if `s` is the highest source that sets it:
+the last key for `l` in sorted order. -/
+def winnerIn (c : Ctx) (srcs : Sources) (l : String) (m : Meta) (s : Src) : Option (Src × KV) :=
+  if admissible m s then (lastMatch c l (sortKeys c (srcs s))).map (fun kv => (s, kv)) else none
 
-theorem keysFold_not_admissible (c : Ctx) (l : String) (m : Meta) (s : Src) (xs : List KV)
-    (h : admissible m s = false) (p : Option Val × Nat) :
-    xs.foldl (fun p kv => pstep c l m p (s, kv)) p = p := by
-  induction xs generalizing p with
-  | nil => rfl
-  | cons x xs ih =>
-    simp only [List.foldl_cons]
-    have : pstep c l m p (s, x) = p := by simp [pstep, h]
-    rw [this]; exact ih p
+/-- The deciding key of parameter `l`. -/
+def winner (c : Ctx) (srcs : Sources) (l : String) (m : Meta) : Option (Src × KV) :=
+  descending.findSome? (winnerIn c srcs l m)
 
-theorem keysFold_distinct (c : Ctx) (l : String) (m : Meta) (s : Src) (xs : List KV)
-    (hd : xs.Pairwise (fun a b => c.lower a.1 ≠ c.lower b.1)) (p : Option Val × Nat) :
-    xs.foldl (fun p kv => pstep c l m p (s, kv)) p =
-      match xs.find? (keyFor c l) with
-      | none => p
-      | some kv => pstep c l m p (s, kv) := by
-  induction xs generalizing p with
-  | nil => rfl
-  | cons x xs ih =>
-    rw [List.pairwise_cons] at hd
-    simp only [List.foldl_cons]
-    by_cases hx : keyFor c l x = true
-    · simp only [List.find?_cons, hx]
-      apply keysFold_no_match
-      intro kv hkv
-      have hne := hd.1 kv hkv
-      have hxl : c.lower x.1 = l := by simpa [keyFor] using hx
-      simp only [keyFor, beq_eq_false_iff_ne, ne_eq]
-      intro e; exact hne (hxl.trans e.symm)
-    · have hx' : keyFor c l x = false := by simpa using hx
-      have : pstep c l m p (s, x) = p := by simp [pstep, hx']
-      rw [this, ih hd.2 p]
-      simp [hx']
-
-theorem srcFold_eq (c : Ctx) (l : String) (m : Meta) (srcs : Sources) (hd : DistinctLower c srcs)
-    (p : Option Val × Nat) (s : Src) :
-    srcFold c l m srcs p s =
-      match decidingIn c srcs l m s with
-      | none => p
-      | some t => pstep c l m p t := by
-  unfold srcFold decidingIn
-  by_cases ha : admissible m s = true
-  · simp only [ha, if_true]
-    rw [keysFold_distinct c l m s (srcs s) (hd s) p]
-    cases (srcs s).find? (keyFor c l) <;> rfl
-  · have ha' : admissible m s = false := by simpa using ha
-    simp only [ha', Bool.false_eq_true, if_false]
-    exact keysFold_not_admissible c l m s (srcs s) ha' p
-
-theorem decidingIn_some {c : Ctx} {srcs : Sources} {l : String} {m : Meta} {s : Src} {t : Src × KV}
-    (h : decidingIn c srcs l m s = some t) :
-    t.1 = s ∧ t.2 ∈ srcs s ∧ keyFor c l t.2 = true ∧ admissible m s = true := by
-  unfold decidingIn at h
+theorem winnerIn_fst {c : Ctx} {srcs : Sources} {l : String} {m : Meta} {s : Src} {t : Src × KV}
+    (h : winnerIn c srcs l m s = some t) : t.1 = s ∧ admissible m s = true := by
+  unfold winnerIn at h
   by_cases ha : admissible m s = true
   · simp only [ha, if_true, Option.map_eq_some_iff] at h
-    obtain ⟨kv, hf, rfl⟩ := h
-    exact ⟨rfl, List.mem_of_find?_eq_some hf, List.find?_some hf, ha⟩
-  · have ha' : admissible m s = false := by simpa using ha
-    simp [ha'] at h
+    obtain ⟨kv, _, rfl⟩ := h; exact ⟨rfl, ha⟩
+  · simp [ha] at h
 
-/-- Once a higher source has set the parameter, lower sources change nothing. -/
-theorem sourcesFold_skip (c : Ctx) (l : String) (m : Meta) (srcs : Sources) (hd : DistinctLower c srcs)
+theorem srcFold_eq (c : Ctx) (l : String) (m : Meta) (srcs : Sources) (p : Option Val × Nat) (s : Src) :
+    srcFold c l m srcs p s =
+      if s.prio < p.2 then p else
+      match winnerIn c srcs l m s with
+      | none => p
+      | some t => (some ((valOf c m t.2.2).getD .dflt), t.1.prio) := by
+  unfold srcFold winnerIn
+  rw [keysFold_eq]
+  by_cases hp : s.prio < p.2
+  · simp [hp]
+  · by_cases ha : admissible m s = true
+    · simp only [ha, hp, not_false_eq_true, and_self, if_true, if_false]
+      cases lastMatch c l (sortKeys c (srcs s)) <;> rfl
+    · simp [ha, hp]
+
+theorem sourcesFold_skip (c : Ctx) (l : String) (m : Meta) (srcs : Sources)
     (ss : List Src) (p : Option Val × Nat) (h : ∀ s ∈ ss, s.prio < p.2) :
     ss.foldl (srcFold c l m srcs) p = p := by
   induction ss with
@@ -250,23 +371,14 @@ theorem sourcesFold_skip (c : Ctx) (l : String) (m : Meta) (srcs : Sources) (hd 
   | cons s ss ih =>
     simp only [List.foldl_cons]
     have hs : srcFold c l m srcs p s = p := by
-      rw [srcFold_eq c l m srcs hd]
-      cases hdi : decidingIn c srcs l m s with
-      | none => rfl
-      | some t =>
-        have h1 := (decidingIn_some hdi).1
-        have : t.1.prio < p.2 := by rw [h1]; exact h s (by simp)
-        simp only [pstep]
-        split
-        · simp
-        · rfl
+      rw [srcFold_eq]; simp [h s (by simp)]
     rw [hs]
     exact ih (fun s' hs' => h s' (by simp [hs']))
 
-theorem sourcesFold_eq (c : Ctx) (l : String) (m : Meta) (srcs : Sources) (hd : DistinctLower c srcs)
+theorem sourcesFold_eq (c : Ctx) (l : String) (m : Meta) (srcs : Sources)
     (ss : List Src) (hs : ss.Pairwise (fun a b => b.prio < a.prio)) :
     ss.foldl (srcFold c l m srcs) (none, 0) =
-      match ss.findSome? (decidingIn c srcs l m) with
+      match ss.findSome? (winnerIn c srcs l m) with
       | none => (none, 0)
       | some t => (some ((valOf c m t.2.2).getD .dflt), t.1.prio) := by
   induction ss with
@@ -274,27 +386,22 @@ theorem sourcesFold_eq (c : Ctx) (l : String) (m : Meta) (srcs : Sources) (hd : 
   | cons s ss ih =>
     rw [List.pairwise_cons] at hs
     simp only [List.foldl_cons, List.findSome?_cons]
-    rw [srcFold_eq c l m srcs hd]
-    cases hdi : decidingIn c srcs l m s with
+    rw [srcFold_eq]
+    simp only [Nat.not_lt_zero, if_false]
+    cases hw : winnerIn c srcs l m s with
     | none => simp only []; exact ih hs.2
     | some t =>
-      obtain ⟨h1, _, h3, h4⟩ := decidingIn_some hdi
-      have hp : pstep c l m (none, 0) t = (some ((valOf c m t.2.2).getD .dflt), t.1.prio) := by
-        simp [pstep, h3, h1, h4]
-      simp only [hp]
-      apply sourcesFold_skip c l m srcs hd
+      simp only []
+      apply sourcesFold_skip
       intro s' hs'
-      simp only [h1]
+      simp only [(winnerIn_fst hw).1]
       exact hs.1 s' hs'
 
-theorem descending_sorted : descending.Pairwise (fun a b => b.prio < a.prio) := by
-  decide
-
 /-- The loop state, seen by one known parameter, after a successful `resolve`. -/
-theorem resolve_proj (c : Ctx) (srcs : Sources) (hd : DistinctLower c srcs) (st : St)
+theorem resolve_proj (c : Ctx) (srcs : Sources) (st : St)
     (h : resolve c srcs = some st) (l : String) (m : Meta) (hk : c.known l = some m) :
     proj l st =
-      match deciding c srcs l m with
+      match winner c srcs l m with
       | none => (none, 0)
       | some t => (some ((valOf c m t.2.2).getD .dflt), t.1.prio) := by
   unfold resolve at h
@@ -303,58 +410,164 @@ theorem resolve_proj (c : Ctx) (srcs : Sources) (hd : DistinctLower c srcs) (st 
   rw [this]
   unfold flat
   rw [foldl_flat]
-  exact sourcesFold_eq c l m srcs hd descending descending_sorted
+  exact sourcesFold_eq c l m srcs descending descending_sorted
 
 end CalicoVerif.C27
 
 namespace CalicoVerif.C27
 
-/-! ### `find?` on lists with distinct lower-case keys; permutations; pruning -/
+/-! ### when does `resolve` fail: `nameToSource[l]` along the walk -/
 
-theorem find?_keyFor_iff (c : Ctx) (l : String) (xs : List KV)
-    (hd : xs.Pairwise (fun a b => c.lower a.1 ≠ c.lower b.1)) (a : KV) :
-    xs.find? (keyFor c l) = some a ↔ a ∈ xs ∧ keyFor c l a = true := by
+theorem pstep_snd_ge (c : Ctx) (l : String) (m : Meta) (p : Option Val × Nat) (t : Src × KV) :
+    p.2 ≤ (pstep c l m p t).2 := by
+  unfold pstep
+  split
+  · split
+    · exact Nat.le_refl _
+    · simp only; omega
+  · exact Nat.le_refl _
+
+theorem foldl_pstep_ge (c : Ctx) (l : String) (m : Meta) (ts : List (Src × KV)) (p : Option Val × Nat) :
+    p.2 ≤ (ts.foldl (pstep c l m) p).2 := by
+  induction ts generalizing p with
+  | nil => exact Nat.le_refl _
+  | cons t ts ih => exact Nat.le_trans (pstep_snd_ge c l m p t) (ih _)
+
+theorem foldl_pstep_ge_mem (c : Ctx) (l : String) (m : Meta) (ts : List (Src × KV)) (p : Option Val × Nat)
+    (x : Src × KV) (hx : x ∈ ts) (hk : keyFor c l x.2 = true) (ha : admissible m x.1 = true) :
+    x.1.prio ≤ (ts.foldl (pstep c l m) p).2 := by
+  induction ts generalizing p with
+  | nil => cases hx
+  | cons t ts ih =>
+    simp only [List.foldl_cons]
+    rcases List.mem_cons.1 hx with rfl | hx'
+    · have : x.1.prio ≤ (pstep c l m p x).2 := by
+        simp only [pstep, hk, ha, Bool.and_self, if_true]
+        split
+        · omega
+        · exact Nat.le_refl _
+      exact Nat.le_trans this (foldl_pstep_ge c l m ts _)
+    · exact ih _ hx'
+
+theorem foldl_pstep_snd_cases (c : Ctx) (l : String) (m : Meta) (ts : List (Src × KV)) (p : Option Val × Nat) :
+    (ts.foldl (pstep c l m) p).2 = p.2 ∨
+    ∃ x ∈ ts, keyFor c l x.2 = true ∧ admissible m x.1 = true ∧ (ts.foldl (pstep c l m) p).2 = x.1.prio := by
+  induction ts generalizing p with
+  | nil => exact Or.inl rfl
+  | cons t ts ih =>
+    simp only [List.foldl_cons]
+    rcases ih (pstep c l m p t) with h | ⟨x, hx, h1, h2, h3⟩
+    · rw [h]
+      unfold pstep
+      split
+      · rename_i hc
+        simp only [Bool.and_eq_true] at hc
+        split
+        · exact Or.inl rfl
+        · right
+          exact ⟨t, by simp, hc.1, hc.2, rfl⟩
+      · exact Or.inl rfl
+    · exact Or.inr ⟨x, by simp [hx], h1, h2, h3⟩
+
+theorem foldlM_none_split {σ α : Type} (f : σ → α → Option σ) (ts : List α) (s : σ)
+    (h : ts.foldlM f s = none) :
+    ∃ pre t post st, ts = pre ++ t :: post ∧ pre.foldlM f s = some st ∧ f st t = none := by
+  induction ts generalizing s with
+  | nil => simp [List.foldlM_nil, pure] at h
+  | cons t ts ih =>
+    simp only [List.foldlM_cons] at h
+    cases h1 : f s t with
+    | none => exact ⟨[], t, ts, s, rfl, rfl, h1⟩
+    | some s1 =>
+      rw [h1] at h
+      obtain ⟨pre, t', post, st, e, hp, hf⟩ := ih s1 h
+      refine ⟨t :: pre, t', post, st, by simp [e], ?_, hf⟩
+      simp only [List.foldlM_cons, h1]
+      exact hp
+
+theorem foldlM_append_none {σ α : Type} (f : σ → α → Option σ) (pre : List α) (t : α) (post : List α)
+    (s st : σ) (hp : pre.foldlM f s = some st) (hf : f st t = none) :
+    (pre ++ t :: post).foldlM f s = none := by
+  rw [List.foldlM_append, hp]
+  simp only [Option.bind_eq_bind, Option.bind_some, List.foldlM_cons, hf, Option.bind_none]
+
+theorem foldlM_prefix_none {σ α : Type} (f : σ → α → Option σ) (pre rest : List α) (s : σ)
+    (hp : pre.foldlM f s = none) : (pre ++ rest).foldlM f s = none := by
+  rw [List.foldlM_append, hp]; rfl
+
+/-! ### sort-free specification -/
+
+/-- Source `s` holds an admissible key for parameter `l`. -/
+def HasKey (c : Ctx) (srcs : Sources) (l : String) (m : Meta) (s : Src) : Prop :=
+  admissible m s = true ∧ ∃ kv ∈ srcs s, keyFor c l kv = true
+
+/-- `s` is the highest-priority source that sets parameter `l`. -/
+def Top (c : Ctx) (srcs : Sources) (l : String) (m : Meta) (s : Src) : Prop :=
+  HasKey c srcs l m s ∧ ∀ s', s.prio < s'.prio → ¬ HasKey c srcs l m s'
+
+/-- Some parameter has a fatal value among the keys of ITS deciding source. -/
+def FatalTop (c : Ctx) (srcs : Sources) : Prop :=
+  ∃ l m s kv, c.known l = some m ∧ Top c srcs l m s ∧ kv ∈ srcs s ∧ keyFor c l kv = true ∧
+    valOf c m kv.2 = none
+
+/-- `t` is the deciding key of `l`: in the deciding source, and the greatest spelling there. -/
+def IsWinner (c : Ctx) (srcs : Sources) (l : String) (m : Meta) (t : Src × KV) : Prop :=
+  Top c srcs l m t.1 ∧ t.2 ∈ srcs t.1 ∧ keyFor c l t.2 = true ∧
+    ∀ kv' ∈ srcs t.1, keyFor c l kv' = true → c.keyLe kv'.1 t.2.1 = true
+
+theorem resolve_none_iff (c : Ctx) (srcs : Sources) : resolve c srcs = none ↔ FatalTop c srcs := by
   constructor
-  · intro h; exact ⟨List.mem_of_find?_eq_some h, List.find?_some h⟩
-  · rintro ⟨hm, hp⟩
-    induction xs with
-    | nil => cases hm
-    | cons x xs ih =>
-      rw [List.pairwise_cons] at hd
-      by_cases hx : keyFor c l x = true
-      · simp only [List.find?_cons, hx]
-        rcases List.mem_cons.1 hm with rfl | hm'
-        · rfl
-        · exfalso
-          have h1 : c.lower x.1 = l := by simpa [keyFor] using hx
-          have h2 : c.lower a.1 = l := by simpa [keyFor] using hp
-          exact hd.1 a hm' (h1.trans h2.symm)
-      · have hx' : keyFor c l x = false := by simpa using hx
-        simp only [List.find?_cons, hx']
-        rcases List.mem_cons.1 hm with rfl | hm'
-        · rw [hp] at hx'; cases hx'
-        · exact ih hd.2 hm'
-
-theorem pairwise_perm {c : Ctx} {xs ys : List KV} (hp : xs.Perm ys)
-    (hd : xs.Pairwise (fun a b => c.lower a.1 ≠ c.lower b.1)) :
-    ys.Pairwise (fun a b => c.lower a.1 ≠ c.lower b.1) :=
-  (hp.pairwise_iff (fun h => Ne.symm h)).1 hd
-
-theorem find?_keyFor_perm (c : Ctx) (l : String) {xs ys : List KV} (hp : xs.Perm ys)
-    (hd : xs.Pairwise (fun a b => c.lower a.1 ≠ c.lower b.1)) :
-    xs.find? (keyFor c l) = ys.find? (keyFor c l) := by
-  have hd' := pairwise_perm hp hd
-  cases hx : xs.find? (keyFor c l) with
-  | none =>
-    symm
-    rw [List.find?_eq_none] at hx ⊢
-    intro a ha; exact hx a (hp.mem_iff.2 ha)
-  | some a =>
-    symm
-    have := (find?_keyFor_iff c l xs hd a).1 hx
-    exact (find?_keyFor_iff c l ys hd' a).2 ⟨hp.mem_iff.1 this.1, this.2⟩
-
-theorem mem_descending (s : Src) : s ∈ descending := by cases s <;> simp [descending]
+  · intro h
+    obtain ⟨pre, t, post, st, e, hp, hf⟩ := foldlM_none_split (step c) _ _ h
+    obtain ⟨m, hk, ha, hnp, hv⟩ := (step_none_iff c st t).1 hf
+    have hmem : t ∈ flat c srcs := by rw [e]; simp
+    have hcur : st.cur (c.lower t.2.1) = (pre.foldl (pstep c (c.lower t.2.1) m) (none, 0)).2 := by
+      have := foldlM_step_proj c _ m hk pre St.empty st hp
+      have h2 := congrArg Prod.snd this
+      exact h2
+    refine ⟨c.lower t.2.1, m, t.1, t.2, hk, ⟨⟨ha, t.2, mem_flat.1 hmem, by simp [keyFor]⟩, ?_⟩,
+      mem_flat.1 hmem, by simp [keyFor], hv⟩
+    intro s' hlt ⟨ha', kv', hkv', hk'⟩
+    have hx : (s', kv') ∈ flat c srcs := mem_flat.2 hkv'
+    have hsorted := flat_sorted c srcs
+    rw [e] at hx hsorted
+    have hpre : (s', kv') ∈ pre := by
+      rcases List.mem_append.1 hx with h1 | h1
+      · exact h1
+      · exfalso
+        have h2 := (List.pairwise_append.1 hsorted).2.1
+        rw [List.pairwise_cons] at h2
+        rcases List.mem_cons.1 h1 with h3 | h3
+        · rw [← h3] at hlt; exact Nat.lt_irrefl _ hlt
+        · have := h2.1 _ h3; simp only at this; omega
+    have := foldl_pstep_ge_mem c (c.lower t.2.1) m pre (none, 0) (s', kv') hpre hk' ha'
+    rw [← hcur] at this
+    simp only at this
+    omega
+  · rintro ⟨l, m, s, kv, hk, ⟨hhas, htop⟩, hmem, hkf, hv⟩
+    have hl : c.lower kv.1 = l := by simpa [keyFor] using hkf
+    have hin : (s, kv) ∈ flat c srcs := mem_flat.2 hmem
+    obtain ⟨pre, post, e⟩ := List.append_of_mem hin
+    unfold resolve
+    rw [e]
+    cases hp : pre.foldlM (step c) St.empty with
+    | none => exact foldlM_prefix_none _ _ _ _ hp
+    | some st =>
+      apply foldlM_append_none _ _ _ _ _ _ hp
+      rw [step_none_iff]
+      refine ⟨m, by simp only; rw [hl]; exact hk, hhas.1, ?_, hv⟩
+      simp only [hl]
+      have hcur : st.cur l = (pre.foldl (pstep c l m) (none, 0)).2 := by
+        have := foldlM_step_proj c l m hk pre St.empty st hp
+        have h2 := congrArg Prod.snd this
+        exact h2
+      rw [hcur]
+      rcases foldl_pstep_snd_cases c l m pre (none, 0) with h0 | ⟨x, hx, hkx, hax, hxe⟩
+      · rw [h0]; exact Nat.not_lt_zero _
+      · rw [hxe]
+        intro hlt
+        have hxin : x ∈ flat c srcs := by rw [e]; simp [hx]
+        exact htop x.1 hlt ⟨hax, x.2, mem_flat.1 hxin, hkx⟩
 
 theorem findSome?_sorted {β : Type} (f : Src → Option β) (ss : List Src)
     (hs : ss.Pairwise (fun a b => b.prio < a.prio)) (t : β) :
@@ -395,44 +608,82 @@ theorem findSome?_sorted {β : Type} (f : Src → Option β) (ss : List Src)
         · rw [hfa] at hfs; cases hfs
         · exact ⟨s, hm, hfs, fun s' hm' hlt => hall s' (by simp [hm']) hlt⟩
 
-theorem deciding_eq_some_iff (c : Ctx) (srcs : Sources) (l : String) (m : Meta) (t : Src × KV) :
-    deciding c srcs l m = some t ↔
-      decidingIn c srcs l m t.1 = some t ∧ ∀ s, t.1.prio < s.prio → decidingIn c srcs l m s = none := by
-  unfold deciding
-  rw [findSome?_sorted _ _ descending_sorted]
-  constructor
-  · rintro ⟨s, _, hfs, hall⟩
-    have := (decidingIn_some hfs).1
-    subst this
-    exact ⟨hfs, fun s' h => hall s' (mem_descending s') h⟩
-  · rintro ⟨h1, h2⟩
-    exact ⟨t.1, mem_descending _, h1, fun s' _ h => h2 s' h⟩
+theorem winnerIn_none_iff {c : Ctx} {srcs : Sources} {l : String} {m : Meta} {s : Src} :
+    winnerIn c srcs l m s = none ↔ ¬ HasKey c srcs l m s := by
+  unfold winnerIn HasKey
+  by_cases ha : admissible m s = true
+  · simp only [ha, if_true, Option.map_eq_none_iff, lastMatch_none, true_and, not_exists, not_and]
+    constructor
+    · intro h kv hkv; rw [h kv (mem_sortKeys.2 hkv)]; simp
+    · intro h kv hkv
+      have := h kv (mem_sortKeys.1 hkv)
+      simpa using this
+  · simp [ha]
 
-theorem deciding_eq_none_iff (c : Ctx) (srcs : Sources) (l : String) (m : Meta) :
-    deciding c srcs l m = none ↔ ∀ s, decidingIn c srcs l m s = none := by
-  unfold deciding
+theorem winner_isWinner (c : Ctx) (ho : OrderOK c) (srcs : Sources) (l : String) (m : Meta)
+    (t : Src × KV) (h : winner c srcs l m = some t) : IsWinner c srcs l m t := by
+  unfold winner at h
+  obtain ⟨s, _, hw, hall⟩ := (findSome?_sorted _ _ descending_sorted t).1 h
+  obtain ⟨h1, ha⟩ := winnerIn_fst hw
+  subst h1
+  have hl : lastMatch c l (sortKeys c (srcs t.1)) = some t.2 := by
+    unfold winnerIn at hw
+    simp only [ha, if_true, Option.map_eq_some_iff] at hw
+    obtain ⟨kv, hkv, e⟩ := hw
+    rw [← e]; exact hkv
+  have hm := lastMatch_some hl
+  refine ⟨⟨⟨ha, t.2, mem_sortKeys.1 hm.1, hm.2⟩, ?_⟩, mem_sortKeys.1 hm.1, hm.2, ?_⟩
+  · intro s' hlt
+    exact winnerIn_none_iff.1 (hall s' (mem_descending s') hlt)
+  · intro kv' hkv' hk'
+    exact lastMatch_max ho (sortKeys_sorted c ho _) hl kv' (mem_sortKeys.2 hkv') hk'
+
+theorem winner_none_iff (c : Ctx) (srcs : Sources) (l : String) (m : Meta) :
+    winner c srcs l m = none ↔ ∀ s, ¬ HasKey c srcs l m s := by
+  unfold winner
   rw [List.findSome?_eq_none_iff]
-  exact ⟨fun h s => h s (mem_descending s), fun h s _ => h s⟩
+  constructor
+  · intro h s; exact winnerIn_none_iff.1 (h s (mem_descending s))
+  · intro h s _; exact winnerIn_none_iff.2 (h s)
 
-/-- The deciding key of a successful `resolve` is never a fatal one. -/
-theorem deciding_not_fatal (c : Ctx) (srcs : Sources) (h : resolve c srcs ≠ none)
-    (l : String) (m : Meta) (hk : c.known l = some m) (t : Src × KV)
-    (ht : deciding c srcs l m = some t) : ∃ v, valOf c m t.2.2 = some v := by
-  have hin := ((deciding_eq_some_iff c srcs l m t).1 ht).1
-  obtain ⟨_, h2, h3, h4⟩ := decidingIn_some hin
-  cases hv : valOf c m t.2.2 with
-  | some v => exact ⟨v, rfl⟩
-  | none =>
-    exfalso
-    apply h
-    unfold resolve
-    rw [foldlM_step_none_iff]
-    refine ⟨t, mem_flat.2 h2, m, ?_, ?_, hv⟩
-    · have : c.lower t.2.1 = l := by simpa [keyFor] using h3
-      rw [this]; exact hk
-    · exact h4
+theorem isWinner_unique (c : Ctx) (ho : OrderOK c) (srcs : Sources) (hn : KeysNodup srcs)
+    (l : String) (m : Meta) (t t' : Src × KV)
+    (h : IsWinner c srcs l m t) (h' : IsWinner c srcs l m t') : t = t' := by
+  obtain ⟨⟨hk, htop⟩, hmem, hkf, hmax⟩ := h
+  obtain ⟨⟨hk', htop'⟩, hmem', hkf', hmax'⟩ := h'
+  have hs : t.1 = t'.1 := by
+    have h1 : ¬ t.1.prio < t'.1.prio := fun hlt => htop _ hlt hk'
+    have h2 : ¬ t'.1.prio < t.1.prio := fun hlt => htop' _ hlt hk
+    have : t.1.prio = t'.1.prio := by omega
+    revert this
+    cases t.1 <;> cases t'.1 <;> simp [Src.prio]
+  obtain ⟨s, kv⟩ := t
+  obtain ⟨s', kv'⟩ := t'
+  simp only at hs
+  subst hs
+  have h1 := hmax kv' hmem' hkf'
+  have h2 := hmax' kv hmem hkf
+  have hkeq : kv.1 = kv'.1 := ho.antisymm _ _ h2 h1
+  have : kv = kv' := eq_of_key_eq (hn s) hmem hmem' hkeq
+  rw [this]
 
-/-! ### Results compared on what the property observes -/
+/-- `winner` is the unique deciding key. -/
+theorem winner_eq_some_iff (c : Ctx) (ho : OrderOK c) (srcs : Sources) (hn : KeysNodup srcs)
+    (l : String) (m : Meta) (t : Src × KV) :
+    winner c srcs l m = some t ↔ IsWinner c srcs l m t := by
+  constructor
+  · exact winner_isWinner c ho srcs l m t
+  · intro h
+    cases hw : winner c srcs l m with
+    | none => exact absurd h.1.1 ((winner_none_iff c srcs l m).1 hw t.1)
+    | some t' =>
+      rw [isWinner_unique c ho srcs hn l m t' t (winner_isWinner c ho srcs l m t' hw) h]
+
+end CalicoVerif.C27
+
+namespace CalicoVerif.C27
+
+/-! ### results compared on what the property observes; pruning shadowed keys -/
 
 /-- Same `Err` outcome and, if resolved, the same value in every known parameter's field. -/
 def SameResult (c : Ctx) (r r' : Option St) : Prop :=
@@ -441,20 +692,106 @@ def SameResult (c : Ctx) (r r' : Option St) : Prop :=
   | some st, some st' => ∀ l m, c.known l = some m → st.fields.lookup l = st'.fields.lookup l
   | _, _ => False
 
-/-- A key is *shadowed*: it belongs to a known parameter whose deciding key sits in a
-higher-priority source (and it is not a datastore value of a local-only parameter). -/
+def hasKeyB (c : Ctx) (srcs : Sources) (l : String) (m : Meta) (s : Src) : Bool :=
+  admissible m s && (srcs s).any (keyFor c l)
+
+theorem hasKeyB_iff {c : Ctx} {srcs : Sources} {l : String} {m : Meta} {s : Src} :
+    hasKeyB c srcs l m s = true ↔ HasKey c srcs l m s := by
+  simp [hasKeyB, HasKey, List.any_eq_true]
+
+/-- A key is *shadowed*: it is an admissible key of a known parameter that a higher-priority source
+also sets. -/
 def shadowed (c : Ctx) (srcs : Sources) (s : Src) (kv : KV) : Bool :=
   match c.known (c.lower kv.1) with
   | none => false
   | some m =>
-    match deciding c srcs (c.lower kv.1) m with
-    | none => false
-    | some t => decide (s.prio < t.1.prio) && admissible m s
+    admissible m s &&
+      descending.any (fun s' => decide (s.prio < s'.prio) && hasKeyB c srcs (c.lower kv.1) m s')
 
 def pruneShadowed (c : Ctx) (srcs : Sources) : Sources :=
   fun s => (srcs s).filter (fun kv => !shadowed c srcs s kv)
 
-/-- A datastore value of a local-only parameter. -/
+theorem shadowed_iff {c : Ctx} {srcs : Sources} {s : Src} {kv : KV} {l : String} {m : Meta}
+    (hk : c.known l = some m) (hl : c.lower kv.1 = l) :
+    shadowed c srcs s kv = true ↔
+      admissible m s = true ∧ ∃ s', s.prio < s'.prio ∧ HasKey c srcs l m s' := by
+  unfold shadowed
+  rw [hl, hk]
+  simp only [Bool.and_eq_true, List.any_eq_true, decide_eq_true_eq, hasKeyB_iff]
+  constructor
+  · rintro ⟨ha, s', _, hlt, hh⟩; exact ⟨ha, s', hlt, hh⟩
+  · rintro ⟨ha, s', hlt, hh⟩; exact ⟨ha, s', mem_descending s', hlt, hh⟩
+
+theorem hasKey_prune {c : Ctx} {srcs : Sources} {l : String} {m : Meta} (hk : c.known l = some m) (s : Src) :
+    HasKey c (pruneShadowed c srcs) l m s ↔ Top c srcs l m s := by
+  constructor
+  · rintro ⟨ha, kv, hkv, hkf⟩
+    have hl : c.lower kv.1 = l := by simpa [keyFor] using hkf
+    obtain ⟨hmem, hns⟩ := List.mem_filter.1 hkv
+    refine ⟨⟨ha, kv, hmem, hkf⟩, ?_⟩
+    intro s' hlt hh
+    have : shadowed c srcs s kv = true := (shadowed_iff hk hl).2 ⟨ha, s', hlt, hh⟩
+    rw [this] at hns; cases hns
+  · rintro ⟨⟨ha, kv, hmem, hkf⟩, htop⟩
+    have hl : c.lower kv.1 = l := by simpa [keyFor] using hkf
+    refine ⟨ha, kv, List.mem_filter.2 ⟨hmem, ?_⟩, hkf⟩
+    cases hs : shadowed c srcs s kv with
+    | false => rfl
+    | true =>
+      obtain ⟨_, s', hlt, hh⟩ := (shadowed_iff hk hl).1 hs
+      exact absurd hh (htop s' hlt)
+
+theorem top_prune {c : Ctx} {srcs : Sources} {l : String} {m : Meta} (hk : c.known l = some m) (s : Src) :
+    Top c (pruneShadowed c srcs) l m s ↔ Top c srcs l m s := by
+  constructor
+  · intro h; exact (hasKey_prune hk s).1 h.1
+  · intro h
+    refine ⟨(hasKey_prune hk s).2 h, ?_⟩
+    intro s' hlt hh
+    exact h.2 s' hlt ((hasKey_prune hk s').1 hh).1
+
+/-- The keys for `l` in its deciding source are never pruned. -/
+theorem mem_prune_top {c : Ctx} {srcs : Sources} {l : String} {m : Meta} (hk : c.known l = some m)
+    {s : Src} (ht : Top c srcs l m s) (kv : KV) (hkf : keyFor c l kv = true) :
+    kv ∈ pruneShadowed c srcs s ↔ kv ∈ srcs s := by
+  have hl : c.lower kv.1 = l := by simpa [keyFor] using hkf
+  constructor
+  · intro h; exact (List.mem_filter.1 h).1
+  · intro h
+    refine List.mem_filter.2 ⟨h, ?_⟩
+    cases hs : shadowed c srcs s kv with
+    | false => rfl
+    | true =>
+      obtain ⟨_, s', hlt, hh⟩ := (shadowed_iff hk hl).1 hs
+      exact absurd hh (ht.2 s' hlt)
+
+theorem fatalTop_prune (c : Ctx) (srcs : Sources) :
+    FatalTop c (pruneShadowed c srcs) ↔ FatalTop c srcs := by
+  constructor
+  · rintro ⟨l, m, s, kv, hk, ht, hmem, hkf, hv⟩
+    have ht' := (top_prune hk s).1 ht
+    exact ⟨l, m, s, kv, hk, ht', (mem_prune_top hk ht' kv hkf).1 hmem, hkf, hv⟩
+  · rintro ⟨l, m, s, kv, hk, ht, hmem, hkf, hv⟩
+    exact ⟨l, m, s, kv, hk, (top_prune hk s).2 ht, (mem_prune_top hk ht kv hkf).2 hmem, hkf, hv⟩
+
+theorem isWinner_prune (c : Ctx) (srcs : Sources) (l : String) (m : Meta) (hk : c.known l = some m)
+    (t : Src × KV) : IsWinner c (pruneShadowed c srcs) l m t ↔ IsWinner c srcs l m t := by
+  constructor
+  · rintro ⟨ht, hmem, hkf, hmax⟩
+    have ht' := (top_prune hk t.1).1 ht
+    refine ⟨ht', (mem_prune_top hk ht' t.2 hkf).1 hmem, hkf, ?_⟩
+    intro kv' hkv' hk'
+    exact hmax kv' ((mem_prune_top hk ht' kv' hk').2 hkv') hk'
+  · rintro ⟨ht, hmem, hkf, hmax⟩
+    refine ⟨(top_prune hk t.1).2 ht, (mem_prune_top hk ht t.2 hkf).2 hmem, hkf, ?_⟩
+    intro kv' hkv' hk'
+    exact hmax kv' ((mem_prune_top hk ht kv' hk').1 hkv') hk'
+
+theorem keysNodup_filter {srcs : Sources} (hn : KeysNodup srcs) (q : Src → KV → Bool) :
+    KeysNodup (fun s => (srcs s).filter (q s)) := fun s => (hn s).filter _
+
+/-! ### datastore values of local-only parameters -/
+
 def nonLocalOfLocal (c : Ctx) (s : Src) (kv : KV) : Bool :=
   match c.known (c.lower kv.1) with
   | none => false
@@ -462,42 +799,6 @@ def nonLocalOfLocal (c : Ctx) (s : Src) (kv : KV) : Bool :=
 
 def dropNonLocal (c : Ctx) (srcs : Sources) : Sources :=
   fun s => (srcs s).filter (fun kv => !nonLocalOfLocal c s kv)
-
-theorem distinctLower_filter {c : Ctx} {srcs : Sources} (hd : DistinctLower c srcs)
-    (q : Src → KV → Bool) : DistinctLower c (fun s => (srcs s).filter (q s)) :=
-  fun s => (hd s).filter _
-
-theorem decidingIn_filter_none {c : Ctx} {srcs : Sources} {l : String} {m : Meta} {s : Src}
-    (q : Src → KV → Bool) (h : decidingIn c srcs l m s = none) :
-    decidingIn c (fun s => (srcs s).filter (q s)) l m s = none := by
-  unfold decidingIn at h ⊢
-  by_cases ha : admissible m s = true
-  · simp only [ha, if_true, Option.map_eq_none_iff, List.find?_eq_none] at h ⊢
-    intro x hx; exact h x (List.mem_filter.1 hx).1
-  · have ha' : admissible m s = false := by simpa using ha
-    simp [ha']
-
-theorem deciding_prune (c : Ctx) (srcs : Sources) (hd : DistinctLower c srcs) (l : String) (m : Meta)
-    (hk : c.known l = some m) :
-    deciding c (pruneShadowed c srcs) l m = deciding c srcs l m := by
-  cases hdec : deciding c srcs l m with
-  | none =>
-    rw [deciding_eq_none_iff] at hdec ⊢
-    intro s; exact decidingIn_filter_none _ (hdec s)
-  | some t =>
-    rw [deciding_eq_some_iff] at hdec ⊢
-    refine ⟨?_, fun s hs => decidingIn_filter_none _ (hdec.2 s hs)⟩
-    obtain ⟨h1, h2, h3, h4⟩ := decidingIn_some hdec.1
-    have hdec' : deciding c srcs l m = some t := (deciding_eq_some_iff c srcs l m t).2 hdec
-    unfold decidingIn pruneShadowed
-    simp only [h4, if_true]
-    have hl : c.lower t.2.1 = l := by simpa [keyFor] using h3
-    have hns : shadowed c srcs t.1 t.2 = false := by
-      simp [shadowed, hl, hk, hdec']
-    have hmem : t.2 ∈ (srcs t.1).filter (fun kv => !shadowed c srcs t.1 kv) := by
-      rw [List.mem_filter]; exact ⟨h2, by simp [hns]⟩
-    rw [(find?_keyFor_iff c l _ ((hd t.1).filter _) t.2).2 ⟨hmem, h3⟩]
-    rfl
 
 theorem foldlM_filter_ident (c : Ctx) (q : Src × KV → Bool)
     (hq : ∀ st t, q t = false → step c st t = some st) (ts : List (Src × KV)) (st : St) :
@@ -514,9 +815,13 @@ theorem foldlM_filter_ident (c : Ctx) (q : Src × KV → Bool)
       simp only [List.filter_cons, h', Bool.false_eq_true, if_false, List.foldlM_cons, hq st t h']
       exact ih st
 
-theorem flat_filter (srcs : Sources) (q : Src → KV → Bool) :
-    flat (fun s => (srcs s).filter (q s)) = (flat srcs).filter (fun t => q t.1 t.2) := by
-  simp [flat, descending, List.filter_append, List.filter_map, Function.comp_def]
+theorem flat_filter (c : Ctx) (ho : OrderOK c) (srcs : Sources) (hn : KeysNodup srcs) (q : Src → KV → Bool) :
+    flat c (fun s => (srcs s).filter (q s)) = (flat c srcs).filter (fun t => q t.1 t.2) := by
+  simp only [flat, descending, List.flatMap_cons, List.flatMap_nil, List.append_nil, List.filter_append,
+    List.filter_map, Function.comp_def]
+  rw [sortKeys_filter c ho _ _ (hn .override), sortKeys_filter c ho _ _ (hn .env),
+    sortKeys_filter c ho _ _ (hn .file), sortKeys_filter c ho _ _ (hn .host),
+    sortKeys_filter c ho _ _ (hn .selector), sortKeys_filter c ho _ _ (hn .global)]
 
 theorem step_nonLocal (c : Ctx) (st : St) (t : Src × KV) (h : (!nonLocalOfLocal c t.1 t.2) = false) :
     step c st t = some st := by
@@ -529,5 +834,47 @@ theorem step_nonLocal (c : Ctx) (st : St) (t : Src × KV) (h : (!nonLocalOfLocal
     have : (m.local_ && !t.1.isLocal) = true := by
       cases hb : (m.local_ && !t.1.isLocal) <;> simp_all
     simp [this]
+
+end CalicoVerif.C27
+
+namespace CalicoVerif.C27
+
+/-- `resolve` on key lists that are already sorted (used to evaluate concrete examples: `mergeSort`
+is defined by well-founded recursion and does not reduce by `decide`). -/
+def resolveSorted (c : Ctx) (srcs : Sources) : Option St :=
+  (descending.flatMap (fun s => (srcs s).map (fun kv => (s, kv)))).foldlM (step c) St.empty
+
+theorem resolve_eq_resolveSorted (c : Ctx) (srcs : Sources)
+    (h : ∀ s, (srcs s).Pairwise (fun a b => c.keyLe a.1 b.1 = true)) :
+    resolve c srcs = resolveSorted c srcs := by
+  unfold resolve resolveSorted flat
+  congr 2
+  funext s
+  unfold sortKeys
+  rw [List.mergeSort_of_pairwise (h s)]
+
+end CalicoVerif.C27
+
+namespace CalicoVerif.C27
+
+theorem foldl_stepP (c : Ctx) (ts : List (Src × KV)) (st : St) :
+    ts.foldlM (step c) st =
+      if (ts.foldl (stepP c) (st, false)).2 then none else some (ts.foldl (stepP c) (st, false)).1 := by
+  induction ts generalizing st with
+  | nil => simp
+  | cons t ts ih =>
+    simp only [List.foldlM_cons, List.foldl_cons]
+    cases h : step c st t with
+    | none =>
+      have hs : stepP c (st, false) t = (st, true) := by simp [stepP, h]
+      have hfix : ∀ us : List (Src × KV), us.foldl (stepP c) (st, true) = (st, true) := by
+        intro us; induction us with
+        | nil => rfl
+        | cons u us ihu => simp only [List.foldl_cons, stepP, if_true]; exact ihu
+      simp only [hs, hfix, if_true]; rfl
+    | some s1 =>
+      have hs : stepP c (st, false) t = (s1, false) := by simp [stepP, h]
+      simp only [hs]
+      exact ih s1
 
 end CalicoVerif.C27
